@@ -1267,13 +1267,14 @@ class Encoder:
 def _solver(rlimit, timeout_ms):
     z3, ctx = z3mod()
     s = z3.Solver(ctx=ctx)
-    s.set('timeout', timeout_ms)
+    if timeout_ms:
+        s.set('timeout', timeout_ms)
     s.set('rlimit', rlimit)
     s.set('random_seed', 0)
     return s
 
 
-def check_negated(prems, concl, flags=(), rlimit=4000000, timeout_ms=2000):
+def check_negated(prems, concl, flags=(), rlimit=4000000, timeout_ms=0):
     """Returns (status, solver, encoder); status in 'sat' 'unsat' 'unknown'.  Raises Unsupported."""
     enc = Encoder(flags)
     s = _solver(rlimit, timeout_ms)
